@@ -285,11 +285,26 @@ Proof.
     + auto.
 Qed.
 
+Lemma row_opt_sat o D v : row_opt o D v ->
+  r_satisfies (opt_to_list o) v = npm_set D v.
+Proof.
+  unfold row_opt, npm_set. destruct o as [bs|]; cbn.
+  - intros (W & Hw & Ht). rewrite orb_false_r. unfold bs_satisfies. rewrite gate_tags, Hw.
+    destruct (forallb (fun c => holds c v) D) eqn:E; cbn [andb]; auto. rewrite Ht by (now rewrite Hw). reflexivity.
+  - intros ->. reflexivity.
+Qed.
 Theorem set_alt cs v : Forall comp_dom cs -> version_dom v -> known_class (ASet cs) v = false ->
   r_satisfies (compile_alt (ASet cs)) v = npm_alt (ASet cs) v.
 Proof.
-  intros Hd Dv K. cbn [known_class] in K. destruct (set_rows cs v Hd Dv K) as (W & Em & HW & HT).
-  unfold compile_alt, npm_alt. destruct (real_comps cs) as [|fp rc] eqn:Er.
+  intros Hd Dv K. cbn [known_class] in K.
+  destruct cs as [|c0 cs0].
+  { (* nothing written: [*] *)
+    cbn [compile_alt npm_alt]. apply row_opt_sat. apply row_ok_opt. apply (row_gte (vr 0 0 0) (v3 0 0 0) v). sv. }
+  remember (c0 :: cs0) as cs eqn:Ecs.
+  destruct (set_rows cs v Hd Dv K) as (W & Em & HW & HT).
+  assert (Ec : compile_alt (ASet cs) = and_fold (flatten_opts (map comp_tbl cs))) by (rewrite Ecs; reflexivity).
+  assert (En : npm_alt (ASet cs) v = match real_comps cs with [] => false | rc => npm_set (flat_map (fun fp => desugar (fst fp) (snd fp)) rc) v end) by (rewrite Ecs; reflexivity).
+  rewrite Ec, En. clear Ec En Ecs. destruct (real_comps cs) as [|fp rc] eqn:Er.
   - rewrite (proj2 Em eq_refl). reflexivity.
   - assert (Ne : flatten_opts (map comp_tbl cs) <> []) by (intro E; apply Em in E; discriminate).
     change (r_satisfies (and_fold (flatten_opts (map comp_tbl cs))) v) with (sat_list (and_fold (flatten_opts (map comp_tbl cs))) v).
@@ -325,14 +340,6 @@ Proof.
   destruct lpa as [C|]; [|destruct (M3 eq_refl) as [-> ->]]; cbn [app]; apply Hup; sv.
 Qed.
 
-Lemma row_opt_sat o D v : row_opt o D v ->
-  r_satisfies (opt_to_list o) v = npm_set D v.
-Proof.
-  unfold row_opt, npm_set. destruct o as [bs|]; cbn.
-  - intros (W & Hw & Ht). rewrite orb_false_r. unfold bs_satisfies. rewrite gate_tags, Hw.
-    destruct (forallb (fun c => holds c v) D) eqn:E; cbn [andb]; auto. rewrite Ht by (now rewrite Hw). reflexivity.
-  - intros ->. reflexivity.
-Qed.
 Theorem hyphen_alt lo hi v : alt_dom (AHyphen lo hi) ->
   r_satisfies (compile_alt (AHyphen lo hi)) v = npm_alt (AHyphen lo hi) v.
 Proof. intros [H1 H2]. cbn [compile_alt npm_alt]. apply row_opt_sat. now apply hyphen_row. Qed.
@@ -358,7 +365,8 @@ Theorem compile_wf (r : ast) : wf (compile r).
 Proof.
   unfold compile. apply wf_flat_map. intros a _. destruct a as [lo hi|cs]; cbn [compile_alt].
   - pose proof (hyphen_tbl_wf lo hi) as H. destruct (hyphen_tbl lo hi); cbn; [constructor; [exact H|constructor]|constructor].
-  - apply and_fold_wf. apply flatten_opts_wf. induction cs as [|c cs IH]; cbn; constructor; auto.
+  - destruct cs as [|c0 cs0]; [vm_compute; repeat constructor|]. remember (c0 :: cs0) as cs. clear Heqcs.
+    apply and_fold_wf. apply flatten_opts_wf. induction cs as [|c cs IH]; cbn; constructor; auto.
     destruct c as [f p|]; cbn [comp_tbl]; [|exact I]. destruct f; cbn [tbl]; auto using partial_tbl_wf, primitive_tbl_wf, tilde_tbl_wf, caret_tbl_wf.
 Qed.
 
